@@ -249,7 +249,7 @@ pub fn run(ctx: &Ctx, rep: &mut Report) {
     rep.prop(
         "files",
         "proptest: 24-byte header (valid UTF-8 and arbitrary bytes; date 1..=65535) + 0..40 records whose bodies are bzip2(payload) for payloads {empty, 1-7 bytes, random, 1-70 KB patterns, 64 KiB, fake-magic, nested bzip2, valid message streams} or raw bytes (incl. empty, incl. 'BZ'-prefixed), size prefix written positive or negative; non-trivial = >= 2 records with >= 1 compressed and >= 1 negative prefix or zero-length body",
-        ctx.tier.pick(1_500, 40_000),
+        ctx.tier.pick(8_000, 150_000),
         || {
             let n = prop_oneof![1 => Just(0usize), 2 => Just(1usize), 8 => 2usize..=6, 2 => 7usize..=40];
             (header_strategy(), n.prop_flat_map(|n| vec(record_strategy(), n))).prop_map(|(header, records)| FileCase { header, records })
